@@ -293,6 +293,11 @@ fn expr_class(e: &VE, ports: &[VarDecl]) -> String {
     let tags = e.tags();
     let has = |p: &str| tags.iter().any(|t| t == p);
     let starts = |p: &str| tags.iter().any(|t| t.starts_with(p));
+    // the reducer keeps a select only when the failure needs it; a select of a SIGNED port
+    // is the known typing defect C17/R8 and takes precedence over the surrounding construct
+    if e.has(&|x| matches!(x, VE::Sel(i, _, _) if ports[*i].signed)) {
+        return "select-of-signed-port".into();
+    }
     if e.has(&|x| matches!(x, VE::Cond(..))) {
         return "if-expression".into();
     }
@@ -304,9 +309,6 @@ fn expr_class(e: &VE, ports: &[VarDecl]) -> String {
     }
     if has("$signed") || has("$unsigned") {
         return "sign-function".into();
-    }
-    if e.has(&|x| matches!(x, VE::Sel(i, _, _) if ports[*i].signed)) {
-        return "select-of-signed-port".into();
     }
     for (class, ops) in [
         ("pow", &["bin**"][..]),
@@ -389,7 +391,19 @@ pub fn run_design(d: &OpDesign, stim: &Stimulus, envs: &[Vec<Bv>], with_cc: bool
             Err(p) => {
                 let msg = p.downcast_ref::<&str>().map(|s| s.to_string()).or_else(|| p.downcast_ref::<String>().cloned()).unwrap_or("<panic>".into());
                 out.bad.push((
-                    format!("engine-panic:{}", engine_family(&name)),
+                    format!(
+                        "engine-panic:{}:{}",
+                        engine_family(&name),
+                        if msg.contains("unwrap()` on a `None`") {
+                            "unwrap-none"
+                        } else if msg.contains("index out of bounds") {
+                            "index-out-of-bounds"
+                        } else if msg.contains("divergence") {
+                            "cc-vs-cranelift-validator-divergence"
+                        } else {
+                            "other"
+                        }
+                    ),
                     format!("engine {name} panicked on an operator design: {}", msg.lines().next().unwrap_or("").chars().take(160).collect::<String>()),
                     json!({"case_index": case_index, "design": design.text, "engine": name, "panic": msg.chars().take(600).collect::<String>()}),
                 ));
@@ -494,7 +508,12 @@ pub fn run_design(d: &OpDesign, stim: &Stimulus, envs: &[Vec<Bv>], with_cc: bool
             let exp = &expected[c][oi];
             if !exp.iter().any(|e| e.bits == got.bits) && ct_bad.len() < 2 {
                 ct_bad.push((
-                    format!("comptime:{}", expr_class(&o.expr, &d.ports)),
+                    // not reduced (C17 does that): a select of a signed port anywhere in the tree is
+                    // the known C17 defect R8 and takes precedence over the outermost construct
+                    format!(
+                        "comptime:{}",
+                        if o.expr.has(&|x| matches!(x, VE::Sel(i, _, _) if d.ports[*i].signed)) { "select-of-signed-port".to_string() } else { expr_class(&o.expr, &d.ports) }
+                    ),
                     format!(
                         "compile-time value of {} = {} differs: analyzer {} ; IEEE {} (C17 judges compile-time evaluation in depth)",
                         o.name,
